@@ -58,6 +58,7 @@ type State struct {
 	closT     map[string]*Closure // closures by the term that denotes them
 	allocTypes []allocType        // heap objects allocated on this path: pointer term -> element type
 	escaped   map[string]bool     // allocated objects that other code may reach
+	freshSl   map[string]bool     // slice values whose backing store this unit allocated
 	errs      []errResult         // error-typed results of calls made on this path (property C12)
 	elemFacts []elemFact // assumed facts about every element of a slice returned by a library call
 }
@@ -98,7 +99,7 @@ func (u *Unit) copyBackInterior(s *State) {
 
 func newState() *State {
 	return &State{cells: map[ssa.Value]Term{}, regs: map[ssa.Value]Term{}, addrs: map[ssa.Value]Addr{}, tups: map[ssa.Value][]Term{},
-		arrs: map[ssa.Value]map[int64]Term{}, closures: map[ssa.Value]*Closure{}, closT: map[string]*Closure{}, escaped: map[string]bool{}, heaps: map[string]Term{}, ghost: map[string]Term{}, visit: map[*ssa.BasicBlock]int{}}
+		arrs: map[ssa.Value]map[int64]Term{}, closures: map[ssa.Value]*Closure{}, closT: map[string]*Closure{}, escaped: map[string]bool{}, freshSl: map[string]bool{}, heaps: map[string]Term{}, ghost: map[string]Term{}, visit: map[*ssa.BasicBlock]int{}}
 }
 
 func (s *State) clone() *State {
@@ -130,6 +131,9 @@ func (s *State) clone() *State {
 	}
 	for k, v := range s.escaped {
 		n.escaped[k] = v
+	}
+	for k, v := range s.freshSl {
+		n.freshSl[k] = v
 	}
 	for k, v := range s.heaps {
 		n.heaps[k] = v
@@ -210,6 +214,7 @@ type Unit struct {
 	declared map[string]bool
 	nepoch   int
 	thName   string
+	pureSeq  int
 	usedBounded map[string]string // bounded-only clauses relied upon -> adapter
 	usedEnsures map[string]bool   // in-module callee ensures relied upon (obligation names)
 }
@@ -460,7 +465,7 @@ func (u *Unit) load(s *State, a Addr) Term {
 
 func (u *Unit) store(s *State, a Addr, v Term) {
 	if u.restricted() {
-		u.checkPureStore(a)
+		u.checkPureStoreS(s, a)
 	}
 	switch x := a.(type) {
 	case AddrCell:
@@ -542,21 +547,48 @@ func (u *Unit) typeFacts(s *State, v Term, t types.Type) {
 }
 
 // checkPureStore: a function whose contract says `pure` must not write caller-visible memory.
-func (u *Unit) checkPureStore(a Addr) {
+func (u *Unit) checkPureStore(a Addr) { u.checkPureStoreS(nil, a) }
+
+// pureViolation: a write outside the unit's write set. With `opt pure-label=Cxx.name` in the contract it becomes a
+// failing obligation of that property (so that the check reports it); otherwise the unit is rejected.
+func (u *Unit) pureViolation(s *State, why string) {
+	if s != nil && u.fc != nil && u.fc.Opts["pure-label"] != "" {
+		label := u.fc.Opts["pure-label"]
+		u.oblige(s, labelWithFn(label, u.fnShort(u.fn)), propsOf(label), "write-set", "false", token.NoPos)
+		s.pc = s.pc[:len(s.pc)-1] // do not assume false afterwards
+		u.note("write outside the declared write set: %s", why)
+		return
+	}
+	panic(abortUnit{why})
+}
+
+func (u *Unit) checkPureStoreS(s *State, a Addr) {
 	switch x := a.(type) {
 	case AddrCell:
 		if _, ok := x.key.(*ssa.Global); ok {
-			panic(abortUnit{"declared pure but writes package-level variable " + x.key.Name()})
+			u.pureViolation(s, "writes package-level variable "+x.key.Name())
 		}
 	case AddrField:
-		u.checkPureStore(x.base)
+		u.checkPureStoreS(s, x.base)
 	case AddrDeref:
 		if !u.writeAllowed(x.ptr) {
-			panic(abortUnit{"write set: writes through pointer " + x.ptr.S})
+			u.pureViolation(s, "writes through pointer "+x.ptr.S)
 		}
 	case AddrElem:
-		if !strings.HasPrefix(x.region.S, "arr!") && !strings.HasPrefix(x.region.S, "arr.") {
-			panic(abortUnit{"declared pure but writes slice element of region " + x.region.S})
+		if !strings.HasPrefix(x.region.S, "arr!") && !strings.HasPrefix(x.region.S, "arr.") && !(s != nil && s.regionFresh(x.region.S)) {
+			u.pureViolation(s, "writes an element of a slice it did not allocate: "+x.region.S)
 		}
 	}
+}
+
+// regionFresh: the region term is (sl_arr X) for a slice X that this unit allocated.
+func (s *State) regionFresh(region string) bool {
+	if strings.HasPrefix(region, "(sl_arr ") && strings.HasSuffix(region, ")") {
+		return s.isFreshSlice(region[len("(sl_arr ") : len(region)-1])
+	}
+	return false
+}
+
+func (s *State) isFreshSlice(t string) bool {
+	return s.freshSl[t] || strings.HasPrefix(t, "(mk_slice arr!") || strings.HasPrefix(t, "(mk_slice mkslice!")
 }
